@@ -299,6 +299,46 @@ def pool_execute(steps):
     return out
 
 
+def threaded_shutdown_histories():
+    """Threaded mode: HttpProtocolHandler.run() leaves its loop and shutdown() flushes what is pending for the client with the
+    blocking _flush(); the client has meanwhile gone away, which the proxy learns only there (broken pipe / reset / other errno).
+    Whatever the flush meets, the upstream socket has to be closed by the proxy.  -> [(description, events, census)]"""
+    import errno
+    import gc
+    out = []
+    errs = [('BrokenPipeError', lambda: BrokenPipeError(errno.EPIPE, 'pipe')), ('ConnectionResetError', lambda: ConnectionResetError(errno.ECONNRESET, 'reset')),
+            ('OSError-ETIMEDOUT', lambda: OSError(errno.ETIMEDOUT, 'timed out')), ('none', None)]
+    for name, mk in errs:
+        conv = scen.Conversation(args=[], threaded=True)
+        sim = conv.sim
+        c = conv.client()
+        c.sock.cap = 10
+        conv.step(('c', b'GET http://a.example/x HTTP/1.1\r\nHost: a.example\r\n\r\n'))
+        if not sim.upstreams:
+            continue
+        sim.upstreams[0].write(b'HTTP/1.1 200 OK\r\nContent-Length: 3000\r\n\r\n' + b'x' * 3000)
+        sim.tick(3)
+        h = sim.live_handler()
+        if h is None:
+            continue
+        if mk is not None:
+            c.proxy_side.arm('send', mk())
+        c.sock.cap = 1 << 20
+        while c.read():
+            pass
+        try:
+            h.shutdown()
+        except Exception:       # noqa: run() would log it; what counts is what is left open
+            pass
+        sim.handlers[:] = []
+        del h
+        gc.collect()
+        proxy_open = sorted((fd, s_.name) for fd, s_ in sim.world.fds.items() if s_.name[:1].islower())
+        census = {'open': ['%s#%d' % (n, fd) for fd, n in proxy_open], 'sel': [], 'works': 0, 'regs': 0, 'unfinished': 0}
+        out.append(('threaded mode: final flush in shutdown() meets %s' % name, to_events(list(sim.world.log)), census))
+    return out
+
+
 def _history_job(job):
     role, script, how = job
     log, census, growth, alive, err = run_history(role, script, how)
@@ -345,6 +385,10 @@ def run(chk):
         cases.append({'id': cid, 'ev': log, 'census': census, 'growth': growth})
         descs[cid] = {'history': desc, 'role': role, 'loop_alive': alive, 'loop_error': err, 'upstream': how,
                       'script': [[x.decode('latin1')[:400] if isinstance(x, bytes) else x for x in st] for st in script]}
+    for desc, log, census in threaded_shutdown_histories():
+        cid = len(cases) + 1
+        cases.append({'id': cid, 'ev': log, 'census': census, 'growth': 0})
+        descs[cid] = {'history': desc, 'role': 'forward/threaded', 'loop_alive': True, 'loop_error': '', 'upstream': 'accept', 'script': []}
     # ---- the upstream connection pool (not anchored in a listed property; part of "what is opened is closed") -------------------
     r = tlc.run('Pool', 'Pool.cfg', workers=8, timeout=300)
     chk.add_tlc('Pool (acquire / retain / release / sweep, exhaustive)', r, exhaustive=True)
